@@ -88,6 +88,9 @@ def pairShape : List JS → Bool
 
 def itemsIsNone : JItems → Bool | .none => true | _ => false
 
+/-- `additionalProperties: false` -/
+def addlIsFalse : JAddl → Bool | .bool false => true | _ => false
+
 mutual
 /-- `pair = true`: property / item / map-value / definition position (`T | null` allowed) -/
 def frag (defs : Defs) : Bool → JS → Bool
@@ -111,7 +114,7 @@ def frag (defs : Defs) : Bool → JS → Bool
            else if t = "array" then fragItem defs items && fragItem defs items2020 && (itemsIsNone items || itemsIsNone items2020)
            else if t = "object" then
              (if props.isEmpty then fragAddl defs addl
-              else (match addl with | .bool false => true | _ => false) && sortedKeys props && fragProps defs a.required props)
+              else addlIsFalse addl && sortedKeys props && fragProps defs a.required props)
            else false
          | [t1, t2] => pair && ((t1 = "null" && scalarTypeName t2) || (t2 = "null" && scalarTypeName t1))
          | _ => false)
